@@ -223,6 +223,7 @@ Proof.
     + rewrite (cnt_upd _ _ _ _ _ Heqo). pcs. rewrite Heqp. lia.
     + intros j. rewrite (inside_at_upd_same _ _ _ _ Heqo); [apply Hr|]. pcs. rewrite Heqp. reflexivity.
     + exact Hd.
+  - (* LCloseOld *) eapply InvA_frame; eauto.
 Qed.
 
 Theorem InvA_reach : forall c s, reach c s -> InvA s.
@@ -340,7 +341,13 @@ Proof.
   - (* LDialTimeout *) destruct HL as [H1 H2]. split; [intros j Hj; discriminate|].
     intros j k' Hk' Hd. destruct (nth_upd_inv _ _ _ _ _ _ _ Heqo Hk') as [[-> ->]|[Hne Hk'']]; [discriminate|].
     pose proof (H2 _ _ Heqo Heqp) as E1. pose proof (H2 _ _ Hk'' Hd) as E2. congruence.
+  - (* LConnDown: under connLock *)
+    destruct HL as [H1 H2]. split; [intros j Hj; discriminate|].
+    intros j k' Hk' Hd. pose proof (H2 _ _ Hk' Hd). congruence.
   - (* LIdleClose: taken and released within the step, possible only while nobody dials *)
+    destruct HL as [H1 H2]. split; [intros j Hj; discriminate|].
+    intros j k' Hk' Hd. pose proof (H2 _ _ Hk' Hd). congruence.
+  - (* LCloseOld *)
     destruct HL as [H1 H2]. split; [intros j Hj; discriminate|].
     intros j k' Hk' Hd. pose proof (H2 _ _ Hk' Hd). congruence.
 Qed.
@@ -702,6 +709,13 @@ Qed.
 Theorem peer_packet_inert : forall c s id pay s', step c s (LPeerPkt id pay) = Some s' -> same_calls s s'.
 Proof. intros c s id pay s' H. inv_step H. unfold same_calls; cbn. repeat split; reflexivity. Qed.
 
+(* closing a connection - the current one or, by a goroutine of an earlier connection, one that is not current any more -
+   needs connLock free and leaves it free; a stale close changes nothing at all *)
+Theorem close_releases_lock : forall c s l s', l = LConnDown \/ l = LCloseOld -> step c s l = Some s' ->
+  lock s = None /\ lock s' = None /\ calls s' = calls s /\ (forall p, queueLen s' p = queueLen s p) /\ invokeNum s' = invokeNum s /\
+  resp s' = resp s /\ sendq s' = sendq s /\ (l = LCloseOld -> conn_open s' = conn_open s).
+Proof. intros c s l s' [-> | ->] H; inv_step H; cbn; repeat split; auto; discriminate. Qed.
+
 (* the sender goroutine's idle check closes the connection and nothing else: it needs connLock free and leaves it free,
    touches no call, counter, table entry or queue; the next call simply dials again *)
 Theorem idle_close_inert : forall c s s', step c s LIdleClose = Some s' ->
@@ -944,7 +958,7 @@ Proof.
   - (* LClean *) eapply (wait_frame c s _ i c0 _ Heqo); try reflexivity; [left; reflexivity|exact HW|]. pose proof (HW _ _ Heqo) as Hok. cbv beta in Hok. wsolve.
   - (* LPost *) eapply (wait_frame c s _ i c0 _ Heqo); try reflexivity; [left; reflexivity|exact HW|]. pose proof (HW _ _ Heqo) as Hok. cbv beta in Hok. wsolve.
   - (* LSendTake *) apply (wait_same c s); [reflexivity|reflexivity|reflexivity|reflexivity|exact HW].
-  - (* LConnDown *) apply (wait_same c s); [reflexivity|reflexivity|reflexivity|reflexivity|exact HW].
+  - (* LConnDown *) apply (wait_same c s); [reflexivity|cbn [lock]; congruence|reflexivity|reflexivity|exact HW].
   - (* LPeerPkt *) apply (wait_same c s); [reflexivity|reflexivity|reflexivity|reflexivity|exact HW].
   - (* LLookup *) apply (wait_same c s); [reflexivity|reflexivity|reflexivity|reflexivity|exact HW].
   - apply (wait_same c s); [reflexivity|reflexivity|reflexivity|reflexivity|exact HW].
@@ -956,6 +970,7 @@ Proof.
   - (* LFilterErr *) eapply (wait_frame c s _ i c0 _ Heqo); try reflexivity; [left; reflexivity|exact HW|]. pose proof (HW _ _ Heqo) as Hok. cbv beta in Hok. wsolve.
   - (* LCount *) eapply (wait_frame c s _ i c0 _ Heqo); try reflexivity; [left; reflexivity|exact HW|]. pose proof (HW _ _ Heqo) as Hok. cbv beta in Hok. wsolve.
   - (* LUncount *) eapply (wait_frame c s _ i c0 _ Heqo); try reflexivity; [left; reflexivity|exact HW|]. pose proof (HW _ _ Heqo) as Hok. cbv beta in Hok. wsolve.
+  - (* LCloseOld *) apply (wait_same c s); [reflexivity|cbn [lock]; congruence|reflexivity|reflexivity|exact HW].
 Qed.
 
 Theorem InvW_reach : forall c s, 0 < writeT c -> reach c s -> InvW c s.
